@@ -70,6 +70,7 @@ class OpSpec(StateModel, FunctionSpec):
     method = "parse"
     fail_care: tuple[str, ...] = tuple(FIELDS)  # components specified when the result is False
     raises: tuple[str, ...] = ()
+    is_rule = False  # rules may be entered on an empty rule stack
 
     def __init__(self) -> None:
         self.target = f"{self.cls}.{self.method}"
@@ -85,7 +86,7 @@ class OpSpec(StateModel, FunctionSpec):
     def setup(self, run: Run):
         st = self.mk_state(run)
         L0 = self.pack(run, st)  # noqa: N806
-        for f in wf_state(L0):
+        for f in wf_state(L0, self.is_rule):
             run.assume(f)
         P0 = run.fresh_t("P0", "seq:pair")  # noqa: N806
         pairs = run.new_list("pair", P0, fresh=False)
@@ -657,5 +658,453 @@ class SequenceSpec(NarySpec):
 
         def modifies(run):
             return spec.state_cells(run) + spec.local_lists(run, "children")
+
+        return {0: Loop(inv, facts=facts, modifies=modifies)}
+
+
+# ============================================================================ identifier / rule
+from .pstate import PSTATE, mkpair, named_oracle, r_mod, r_name  # noqa: E402
+
+R = named_oracle("rule")
+RULE = "pest.grammar.rule.Rule"
+SILENT, ATOMIC, COMPOUND, NONATOMIC = 2, 4, 8, 16
+
+
+class RulesMixin:
+    """state.parser.rules: an abstract, total rule table (the property assumes no undefined references).
+    rules[name] / rules.get(name) give an abstract rule whose parse() is the named oracle R."""
+
+    defined: dict[str, bool] = {}
+
+    def getitem(self, run: Run, base: Any, idx: Any, n):
+        if isinstance(base, tuple) and base and base[0] == "$rules":
+            return Child(idx, "rule", cls="Rule")
+        return NotImplemented
+
+    def family(self, run: Run, child: Child):
+        if child.tag == "rule":
+            return R
+        return oracle(child.tag)
+
+    def call_method(self, run: Run, recv: Any, name: str, args, kwargs, n):
+        if isinstance(recv, tuple) and recv and recv[0] == "$rules" and name == "get":
+            key = args[0]
+            if isinstance(key, str) and key in self.defined:
+                return Child(key, "rule", cls="Rule") if self.defined[key] else None
+            return Child(key, "rule", cls="Rule")
+        return super().call_method(run, recv, name, args, kwargs, n)
+
+    def getattr(self, run: Run, base: Any, attr: str, n):
+        if isinstance(base, tuple) and base and base[0] == "$rules":
+            from pyvc.values import BoundMethod
+
+            return BoundMethod(base, attr)
+        return super().getattr(run, base, attr, n) if hasattr(super(), "getattr") else NotImplemented
+
+
+class IdentifierSpec(RulesMixin, OpSpec):
+    cls = f"{T}.Identifier"
+    fail_care = ("tags", "sup", "far", "fi", "pos", "stk")
+
+    def mk_self(self, run):
+        return run.heap.alloc(self.cls, {"value": run.fresh("name", "str"), "tag": None}, fresh=False)
+
+    def K(self, run, L0):  # noqa: N802, N803
+        nm = z(run.obj(run.pre["me"])["value"])
+        return R[0](nm, L0), R[1](nm, L0), R[2](nm, L0)
+
+
+class TaggedIdentifierSpec(IdentifierSpec):
+    label = f"{T}.Identifier.parse[tagged]"
+
+    def mk_self(self, run):
+        t = run.fresh("tag", "str")
+        run.assume(z3.Length(t.t) > 0)
+        return run.heap.alloc(self.cls, {"value": run.fresh("name", "str"), "tag": t}, fresh=False)
+
+    def K(self, run, L0):  # noqa: N802, N803
+        o = run.obj(run.pre["me"])
+        nm, t = z(o["value"]), z(o["tag"])
+        Lin = with_tag(L0, t)  # noqa: N806
+        return R[0](nm, Lin), untag(R[1](nm, Lin)), R[2](nm, Lin)
+
+
+vis = z3.Function("visible_under_atomic", SeqPair, SeqPair)
+
+
+class RuleSpec(RulesMixin, OpSpec):
+    """Rule.parse for one modifier value and one name class (plain / WHITESPACE|COMMENT).
+
+    K (DESIGN A.2): rule stack push/pop around the body; atomic depth +1 for @, $ and trivia rules,
+    0 for !, unchanged otherwise, restored on every exit; silent -> body pairs unwrapped;
+    otherwise exactly one pair <name, pos, pos', children, tag> with tag = top of the tag stack (popped);
+    children of an @ rule = vis(body pairs): the pairs produced under a nested $ or ! rule.
+    """
+
+    cls = RULE
+    fail_care = ("tags", "sup", "far", "fi", "pos", "stk")
+    is_rule = True
+
+    def __init__(self, modifier: int, trivia_name: str | None = None):
+        self.modifier = modifier
+        self.trivia_name = trivia_name
+        super().__init__()
+        self.label = f"{RULE}.parse[mod={modifier}{',' + trivia_name if trivia_name else ''}]"
+
+    def mk_self(self, run):
+        rid = run.fresh("self_rule", "rule")
+        if self.trivia_name:
+            name: Any = self.trivia_name
+            run.assume(r_name(rid.t) == z3.StringVal(name))
+        else:
+            name = run.fresh("rname", "str")
+            run.assume(z3.And(name.t != z3.StringVal("COMMENT"), name.t != z3.StringVal("WHITESPACE"), r_name(rid.t) == name.t))
+        run.assume(r_mod(rid.t) == self.modifier)
+        return run.heap.alloc(
+            self.cls,
+            {"name": name, "expression": Child(0, "c"), "modifier": self.modifier, "doc": None, "tag": None, "$term": rid.t},
+            fresh=False,
+        )
+
+    @property
+    def constructors(self):
+        def mk_pair(run: Run, args, kwargs):
+            start, end = z(kwargs["start"], "int"), z(kwargs["end"], "int")
+            rule = kwargs["rule"]
+            rt = run.obj(rule)["$term"]
+            ch = kwargs["children"]
+            t, _ = run.as_seq(ch, None, "pair")
+            tag = z(kwargs["tag"], "optstr")
+            return Sym(mkpair(r_name(rt), start, end, t, tag), "pair")
+
+        return {"pest.pairs.Pair": mk_pair}
+
+    def isinstance(self, run: Run, v: Any, cls: Any, n):
+        if isinstance(v, Child):
+            return False  # body is neither a Rule nor an Identifier (the two syntactic special cases: finding F8)
+        return NotImplemented
+
+    def K(self, run, L0):  # noqa: N802, N803
+        me = run.obj(run.pre["me"])
+        rid = me["$term"]
+        m = self.modifier
+        Lp = lset(L0, rstk=z3.Concat(lget(L0, "rstk"), z3.Unit(rid)))  # noqa: N806
+        if m & (ATOMIC | COMPOUND) or self.trivia_name:
+            Lin = lset(Lp, atom=lget(L0, "atom") + 1)  # noqa: N806
+        elif m & NONATOMIC:
+            Lin = lset(Lp, atom=z3.IntVal(0))  # noqa: N806
+        else:
+            Lin = Lp  # noqa: N806
+        ok, L1, P = ocall(C, 0, Lin)  # noqa: N806
+        # G of the body: rule stack and atomic depth come back as given; then popped / restored
+        Lo = lset(L1, rstk=lget(L0, "rstk"), atom=lget(L0, "atom"))  # noqa: N806
+        if m & SILENT:
+            return ok, Lo, P
+        tg = lget(L1, "tags")
+        has = z3.Length(tg) > 0
+        tag = z3.If(has, OptStr.some_s(tg[z3.Length(tg) - 1]), OptStr.none_s)
+        Lt = lset(Lo, tags=z3.If(has, z3.SubSeq(tg, 0, z3.Length(tg) - 1), tg))  # noqa: N806
+        kids = vis(P) if m & ATOMIC else P
+        pair = mkpair(r_name(rid), lget(L0, "pos"), lget(L1, "pos"), kids, tag)
+        return ok, z3.If(ok, Lt, Lo), z3.Unit(pair)
+
+
+def rule_specs():
+    out = []
+    for m in (0, SILENT, ATOMIC, COMPOUND, NONATOMIC, SILENT | ATOMIC, SILENT | COMPOUND, SILENT | NONATOMIC):
+        out.append(RuleSpec(m))
+    for nm in ("WHITESPACE", "COMMENT"):
+        for m in (0, SILENT):
+            out.append(RuleSpec(m, nm))
+    return out
+
+
+# ============================================================================ Parser.parse / ParserState.__init__
+from pyvc.sorts import SL  # noqa: E402
+
+from .common import new_abstract_stack, new_sint  # noqa: E402
+from .pstate import START, lmk  # noqa: E402
+
+FI0 = z3.Const("fi_init", LS.accessor(0, 8).range())
+
+
+def L_init(start):  # noqa: N802
+    return lmk(
+        pos=start,
+        stk=z3.Empty(z3.SeqSort(z3.StringSort())),
+        rstk=z3.Empty(lget(z3.Const("_l", LS), "rstk").sort()),
+        atom=z3.IntVal(0),
+        tags=z3.Empty(z3.SeqSort(z3.StringSort())),
+        neg=z3.IntVal(0),
+        sup=z3.BoolVal(False),
+        far=z3.IntVal(-1),
+        fi=FI0,
+    )
+
+
+class ParserParseSpec(RulesMixin, StateModel, FunctionSpec):
+    """Parser.parse(start_rule, text, start_pos): Pairs(rule(L_init).prs) or PestParsingError(state)."""
+
+    target = "pest.parser.Parser.parse"
+    raises = ("PestParsingError",)
+
+    def setup(self, run: Run):
+        me = run.heap.alloc("pest.parser.Parser", {"rules": ("$rules",), "doc": None}, fresh=False)
+        name = run.fresh("start_rule", "str")
+        run.assume(z3.And(0 <= START, START <= z3.Length(INP)))
+        run.pre = {"me": me, "name": name.t}
+        return me, [name, Sym(INP, "str")], {"start_pos": Sym(START, "int")}
+
+    @property
+    def constructors(self):
+        spec = self
+
+        def mk_state(run: Run, args, kwargs):
+            st = spec.mk_state(run, "_new")
+            run.heap.objs[st.oid]["$fresh"] = True
+            spec.unpack(run, st, L_init(z(args[1])))
+            o = run.obj(st)
+            run.setf(o["user_stack"], "$snaps", SL("str").nil)
+            run.setf(o["rule_stack"], "$snaps", SL("rule").nil)
+            run.set_seq(run.obj(o["atomic_depth"])["_checkpoints"], z3.Empty(z3.SeqSort(z3.IntSort())))
+            run.set_seq(o["_pos_history"], z3.Empty(z3.SeqSort(z3.IntSort())))
+            run.setf(st, "input", args[0])
+            run.pre["st"] = st
+            run.pre["state_args_ok"] = z3.And(z(args[0]) == INP, z(args[1]) == START, isinstance(args[2], Ref) and args[2] == run.pre["me"])
+            return st
+
+        return {PSTATE: mk_state}
+
+    inline = (*StateModel.inline, "pest.pairs.Pairs.__init__")
+
+    def K(self, run):  # noqa: N802
+        L0 = L_init(START)  # noqa: N806
+        nm = run.pre["name"]
+        return R[0](nm, L0), R[1](nm, L0), R[2](nm, L0)
+
+    def post(self, run: Run, pre: Any, out: Any) -> None:
+        ok, L1, P = self.K(run)  # noqa: N806
+        run.oblige("K.ok", ok)
+        run.oblige("state.args", pre["state_args_ok"])
+        good = isinstance(out, Ref) and run.cls_of(out) == "pest.pairs.Pairs"
+        run.oblige("result.is_pairs", good)
+        if good:
+            t, _ = run.as_seq(run.obj(out)["_pairs"], None, "pair")
+            run.oblige("result.pairs", t == P)
+
+    def post_exc(self, run: Run, pre: Any, exc: PyExc) -> None:
+        if exc.name == "PestParsingError":
+            ok, L1, P = self.K(run)  # noqa: N806
+            run.oblige("K.fail", z3.Not(ok))
+            payload = exc.payload
+            st = payload[2][0] if payload and payload[2] else None
+            run.oblige("error.state", isinstance(st, Ref) and st == pre.get("st"))
+            if isinstance(st, Ref):
+                Lc = self.pack(run, st)  # noqa: N806
+                run.oblige("error.far", lget(Lc, "far") == lget(L1, "far"))
+                run.oblige("error.fi", lget(Lc, "fi") == lget(L1, "fi"))
+            return
+        super().post_exc(run, pre, exc)
+
+
+# ============================================================================ stack loops: PEEK[a..b], PEEK_ALL, POP_ALL
+SeqStrSort = z3.SeqSort(z3.StringSort())
+# jn(S, k) = S[0] ++ ... ++ S[k-1]   (bottom to top);   jr(S, k) = S[n-1] ++ ... ++ S[n-k]   (top to bottom)
+jn = z3.Function("join_first", SeqStrSort, z3.IntSort(), z3.StringSort())
+jr = z3.Function("join_top", SeqStrSort, z3.IntSort(), z3.StringSort())
+
+
+def jn_unfold(S, k) -> list[z3.BoolRef]:  # noqa: N803
+    return [jn(S, 0) == z3.StringVal(""), z3.Implies(z3.And(0 <= k, k < z3.Length(S)), jn(S, k + 1) == z3.Concat(jn(S, k), S[k]))]
+
+
+def jr_unfold(S, k) -> list[z3.BoolRef]:  # noqa: N803
+    n = z3.Length(S)
+    return [jr(S, 0) == z3.StringVal(""), z3.Implies(z3.And(0 <= k, k < n), jr(S, k + 1) == z3.Concat(jr(S, k), S[n - 1 - k]))]
+
+
+SWp = z3.Function("sw_abs", z3.StringSort(), z3.IntSort(), z3.BoolSort())  # opaque twin of sw()
+
+
+def swp_concat(a, b, p) -> z3.BoolRef:
+    """instance of lemma.sw_concat:  sw(a ++ b, p) <=> sw(a, p) and sw(b, p + |a|)   (p >= 0)"""
+    return z3.Implies(p >= 0, SWp(z3.Concat(a, b), p) == z3.And(SWp(a, p), SWp(b, p + z3.Length(a))))
+
+
+class StackLoopSpec(TerminalSpec):
+    """Failure: sigma unchanged except that fail(<the mismatching entry>) was recorded at the entry
+    position; the label is not part of the contract (fi unspecified on failure), far is.
+
+    String reasoning is kept out of the loop obligations: inp.startswith(v, p) is the opaque predicate
+    SWp(v, p); its two algebraic laws are proved once from the definition (lemma.sw_concat, lemma.sw_empty)
+    and instantiated where needed."""
+
+    fail_care = tuple(f for f in FIELDS if f != "fi")
+
+    def mk_self(self, run):
+        return run.heap.alloc(self.cls, {"tag": None}, fresh=False)
+
+    def setup(self, run: Run):
+        r = super().setup(run)
+        a, b = z3.Strings("lem_a lem_b")
+        p = z3.Int("lem_p")
+        run.oblige_lemma("sw_concat", z3.Implies(p >= 0, sw(z3.Concat(a, b), p) == z3.And(sw(a, p), sw(b, p + z3.Length(a)))))
+        run.oblige_lemma("sw_empty", z3.Implies(p >= 0, sw(z3.StringVal(""), p) == (p <= z3.Length(INP))))
+        return r
+
+    def str_method(self, run: Run, s: Any, name: str, args, kwargs, n):
+        if name == "startswith" and len(args) == 2 and isinstance(s, Sym) and s.t.eq(INP):
+            v = args[0]
+            if isinstance(v, Sym) and v.k == "str":
+                p = z(args[1], "int")
+                run.oblige("startswith.pos.nonneg", p >= 0)
+                return wrap(SWp(v.t, p), "bool")
+        return NotImplemented
+
+    def word(self, run: Run, L0):  # noqa: N803
+        raise NotImplementedError
+
+    def K(self, run, L0):  # noqa: N802, N803
+        w = self.word(run, L0)
+        ok = SWp(w, lget(L0, "pos"))
+        run.assume(z3.Implies(z3.Length(w) == 0, SWp(w, lget(L0, "pos")) == (lget(L0, "pos") <= z3.Length(INP))), "lemma.sw_empty instance")
+        return ok, z3.If(ok, self.success(advance(L0, z3.Length(w))), fail_effect(L0, z3.StringVal("?"))), EMPTY_P
+
+    def post(self, run: Run, pre: Any, out: Any) -> None:
+        # G.3 needs: a successful match lies inside the input  (sw(w,p) => p + |w| <= |inp|, from the definition)
+        w = self.word(run, pre["L0"])
+        p = lget(pre["L0"], "pos")
+        a = z3.String("lem_a")
+        q = z3.Int("lem_p")
+        run.oblige_lemma("sw_inside", z3.Implies(z3.And(q >= 0, sw(a, q)), q + z3.Length(a) <= z3.Length(INP)))
+        run.assume(z3.Implies(SWp(w, p), p + z3.Length(w) <= z3.Length(INP)), "lemma.sw_inside instance")
+        super().post(run, pre, out)
+
+    def success(self, L):  # noqa: N803
+        return L
+
+
+def prefix_lemma(J, S, k, p) -> z3.BoolRef:  # noqa: N803
+    """lemma.join_prefix (induction on |S| - k from the concat law; the induction step is discharged as
+    obligation lemma.join_prefix.step, the induction principle itself is a meta-argument):
+        sw(J(S,|S|), p)  =>  sw(J(S,k), p)        for 0 <= k <= |S|, p >= 0"""
+    return z3.Implies(z3.And(0 <= k, k <= z3.Length(S), p >= 0, SWp(J(S, z3.Length(S)), p)), SWp(J(S, k), p))
+
+
+class JoinLoopSpec(StackLoopSpec):
+    J = jn
+    unfold = staticmethod(jn_unfold)
+
+    def seq_of(self, run: Run, L0):  # noqa: N803
+        return lget(L0, "stk")
+
+    def word(self, run, L0):  # noqa: N803
+        S = self.seq_of(run, L0)  # noqa: N806
+        return self.J(S, z3.Length(S))
+
+    def index(self, run: Run):
+        return z(run.loop_idx)
+
+    def setup(self, run: Run):
+        r = super().setup(run)
+        # induction step of lemma.join_prefix, from the unfolding and the concat law (all opaque symbols)
+        S = z3.Const("lem_S", SeqStrSort)  # noqa: N806
+        k, p = z3.Ints("lem_k lem_p")
+        W = z3.String("lem_W")  # noqa: N806
+        J = self.J  # noqa: N806
+        x = S[k] if J is jn else S[z3.Length(S) - 1 - k]
+        hyp = z3.And(0 <= k, k < z3.Length(S), p >= 0, J(S, k + 1) == z3.Concat(J(S, k), x), swp_concat(J(S, k), x, p))
+        run.oblige_lemma("join_prefix.step", z3.Implies(z3.And(hyp, z3.Implies(SWp(W, p), SWp(J(S, k + 1), p))), z3.Implies(SWp(W, p), SWp(J(S, k), p))))
+        return r
+
+    def facts_at(self, run: Run, i):
+        L0 = run.pre["L0"]  # noqa: N806
+        S = self.seq_of(run, L0)  # noqa: N806
+        p0 = lget(L0, "pos")
+        J = self.J  # noqa: N806
+        x = S[i] if J is jn else S[z3.Length(S) - 1 - i]
+        return [
+            *self.unfold(S, i),
+            swp_concat(J(S, i), x, p0),
+            prefix_lemma(J, S, i + 1, p0),
+            z3.Implies(z3.Length(J(S, i)) == 0, SWp(J(S, i), p0) == (p0 <= z3.Length(INP))),
+        ]
+
+    def inv_common(self, run: Run, i):
+        L0 = run.pre["L0"]  # noqa: N806
+        S = self.seq_of(run, L0)  # noqa: N806
+        position = z(run.frames[0].env["position"])
+        done = self.J(S, i)
+        return ("position", z3.And(position == lget(L0, "pos") + z3.Length(done), SWp(done, lget(L0, "pos"))))
+
+    def mk_loops(self):
+        spec = self
+
+        def facts(run, g):
+            return spec.facts_at(run, spec.index(run))
+
+        def inv(run, g):
+            return [
+                ("state", spec.cur(run) == run.pre["L0"]),
+                ("snaps", spec.snaps_same(run)),
+                ("pairs", spec.pairs_now(run) == run.pre["P0"]),
+                spec.inv_common(run, spec.index(run)),
+            ]
+
+        return {0: Loop(inv, facts=facts, modifies=lambda run: [])}
+
+
+class PeekSliceSpec(JoinLoopSpec):
+    cls = f"{T}.PeekSlice"
+
+    def mk_self(self, run):
+        return run.heap.alloc(self.cls, {"start": run.fresh("a", "optint"), "stop": run.fresh("b", "optint"), "tag": None}, fresh=False)
+
+    def seq_of(self, run: Run, L0):  # noqa: N803
+        o = run.obj(run.pre["me"])
+        return run.slice_seq(lget(L0, "stk"), o["start"], o["stop"])
+
+
+class PeekAllSpec(JoinLoopSpec):
+    cls = f"{T}.PeekAll"
+    J = jr
+    unfold = staticmethod(jr_unfold)
+
+
+class PopAllSpec(JoinLoopSpec):
+    cls = f"{T}.PopAll"
+    J = jr
+    unfold = staticmethod(jr_unfold)
+
+    def success(self, L):  # noqa: N803
+        return lset(L, stk=z3.Empty(SeqStrSort))
+
+    def index(self, run: Run):
+        S = lget(run.pre["L0"], "stk")  # noqa: N806
+        return z3.Length(S) - z3.Length(lget(self.cur(run), "stk"))
+
+    def mk_loops(self):
+        spec = self
+
+        def facts(run, g):
+            return spec.facts_at(run, spec.index(run))
+
+        def inv(run, g):
+            L0 = run.pre["L0"]  # noqa: N806
+            S = lget(L0, "stk")  # noqa: N806
+            n = z3.Length(S)
+            Lc = spec.cur(run)  # noqa: N806
+            cur_stk = lget(Lc, "stk")
+            i = spec.index(run)
+            return [
+                ("state", z3.And(Lc == lset(L0, stk=cur_stk), i >= 0, cur_stk == z3.SubSeq(S, 0, n - i))),
+                ("snaps", spec.snaps_pushed(run, L0)),
+                ("pairs", spec.pairs_now(run) == run.pre["P0"]),
+                spec.inv_common(run, i),
+            ]
+
+        def modifies(run):
+            st = run.pre["st"]
+            return [(run.obj(run.obj(st)["user_stack"])["items"], "seq")]
 
         return {0: Loop(inv, facts=facts, modifies=modifies)}
